@@ -62,3 +62,19 @@ pub fn before(a: (i64, i64, i64), b: (i64, i64, i64)) -> bool {
 
 pub const ORD_MIN: i64 = 1721424; // 0001-01-01
 pub const ORD_MAX: i64 = 5373484; // 9999-12-31
+
+/// the civil day before (y, m, d); defined for valid dates other than 0001-01-01
+pub fn pred(y: i64, m: i64, d: i64) -> (i64, i64, i64) {
+  if y == 1582 && m == 10 && d == 15 { (1582, 10, 4) }
+  else if d > 1 { (y, m, d - 1) }
+  else if m > 1 { (y, m - 1, last_day(y, m - 1)) }
+  else { (y - 1, 12, 31) }
+}
+
+/// day number of the date at 1-based position `pos` among the existing dates of a month
+pub fn day_at_pos(y: i64, m: i64, pos: i64) -> i64 {
+  if y == 1582 && m == 10 && pos > 4 { pos + 10 } else { pos }
+}
+
+/// weekday index (0 = Sunday) from the day number
+pub fn weekday(ord: i64) -> i64 { (ord + 1) % 7 }
